@@ -1065,6 +1065,21 @@ def c07(case, lines):
         if tail[-2:] != ["I", "N"]:
             return "backlog: after the backlog was consumed a fresh message gave %s (expected the message, then Pending)" % tail[-2:]
         return None
+    if (case.get("id") or "").startswith("stream-outlives-disconnect"):
+        # a connection that ends (here: the user's DISCONNECT) does not end a stream - only the Context's departure does; the
+        # stream serves the next connection of the same Context
+        dk = next((k for k, e in enumerate(tr.evs) if e == "dropctx"), None)
+        got = []
+        for l in lines:
+            p = l.split(" ")
+            if p[1] == "E" and (dk is None or int(p[0]) < dk):
+                return "end: stream %s reported its end at event %s, after the connection ended, although the Context is alive and nobody had dropped the stream" % (p[2], p[0])
+            if p[1] == "I":
+                got.append(kv(" ".join(p[3:]))["pl"])
+        want = [M.hx(b"m1"), M.hx(b"m2")]
+        if got != want:
+            return "delivery: the stream yielded %s; its subscription identifier was carried by %s (the second one on the next connection of the same Context)" % (got, want)
+        return None
     if (case.get("id") or "").startswith("ack-write-fails"):
         # the write fault hits the acknowledgement, after the message was handed to its stream
         got = [kv(" ".join(l.split(" ")[3:]))["pl"] for l in lines if l.split(" ")[1] == "I"]
